@@ -2,7 +2,8 @@
  * public API only (+ _dispatch_iocntl to shrink the chunk size so that operations take several
  * pread/pwrite rounds and interleave round-robin).
  * usage: drv_iorand <vectors.txt> <out.txt> <tmpdir>
- * vector line:  unit pages flen base nphases { nops stop { k off len } }  (k: 0 read, 1 write; len 99 = SIZE_MAX;
+ * vector line:  unit pages flen base nphases { nops stop pbase { k off len } }  (k: 0 read, 1 write; len 99 = SIZE_MAX;
+ *               pbase != the channel's base: lseek(fd, pbase) and derive a new channel with dispatch_io_create_with_io;
  *               stop 1: dispatch_io_close(DISPATCH_IO_STOP) right after the batch was submitted)
  * output:       "R v p i calls dones after_done err total crc"  per operation,
  *               "F v p len crc"                                  file contents after each phase,
@@ -70,16 +71,25 @@ int main(int argc, char **argv)
 		}
 		lseek(fd, (off_t)(base * unit), SEEK_SET);
 		__block long cleanups = 0, cerr = 0;
-		int closed = 0;
+		int closed = 0; long curbase = base, nchan = 1; dispatch_io_t old[8]; int nold = 0;
 		dispatch_semaphore_t csem = dispatch_semaphore_create(0);
 		dispatch_queue_t cq = dispatch_queue_create("iorand.chq", NULL);
 		dispatch_io_t ch = dispatch_io_create(DISPATCH_IO_RANDOM, fd, cq, ^(int e) {
-			cleanups++; cerr = e; dispatch_semaphore_signal(csem);
+			cleanups++; if (e) cerr = e; dispatch_semaphore_signal(csem);
 		});
 		if (!ch) { fprintf(stderr, "dispatch_io_create failed\n"); return 2; }
 		for (long p = 1; p <= nph; p++) {
-			long nops, stop;
-			if (fscanf(in, "%ld %ld", &nops, &stop) != 2 || nops > MAXOPS) return 2;
+			long nops, stop, pbase;
+			if (fscanf(in, "%ld %ld %ld", &nops, &stop, &pbase) != 3 || nops > MAXOPS) return 2;
+			if (pbase != curbase) {
+				/* the old channel stays open until the end: closing it before the new one has initialised would cancel the new one */
+				lseek(fd, (off_t)(pbase * unit), SEEK_SET);
+				dispatch_io_t nch = dispatch_io_create_with_io(DISPATCH_IO_RANDOM, ch, cq, ^(int e) {
+					cleanups++; if (e) cerr = e; dispatch_semaphore_signal(csem);
+				});
+				if (!nch) { fprintf(stderr, "dispatch_io_create_with_io failed\n"); return 2; }
+				old[nold++] = ch; ch = nch; nchan++; curbase = pbase;
+			}
 			struct opst *st = calloc((size_t)nops, sizeof *st);
 			dispatch_group_t g = dispatch_group_create();
 			for (long i = 0; i < nops; i++) {
@@ -155,11 +165,12 @@ int main(int argc, char **argv)
 		}
 		if (!closed) dispatch_io_close(ch, 0);
 		dispatch_release(ch);
-		if (dispatch_semaphore_wait(csem, dispatch_time(DISPATCH_TIME_NOW, 30ll * NSEC_PER_SEC))) {
+		for (int i = 0; i < nold; i++) { dispatch_io_close(old[i], 0); dispatch_release(old[i]); }
+		for (long i = 0; i < nchan; i++) if (dispatch_semaphore_wait(csem, dispatch_time(DISPATCH_TIME_NOW, 30ll * NSEC_PER_SEC))) {
 			fprintf(stderr, "HANG cleanup vector %d\n", v); _exit(3);
 		}
 		usleep(500);
-		fprintf(out, "C %d %ld %ld\n", v, cleanups, cerr);
+		fprintf(out, "C %d %ld %ld %ld\n", v, cleanups, cerr, nchan);
 		dispatch_release(cq);
 		dispatch_release(csem);
 		close(fd);
